@@ -1,6 +1,7 @@
 /* mcrt memory: malloc family on a per-process bump arena (nothing is reused inside one execution, so a freed
  * block stays poisoned in the monitor's shadow and addresses identify blocks), block ledger, range reporting for
  * memcpy/memset/memmove.  Not compiled with -fsanitize=thread. */
+#define MCRT_MEM_WRAPPERS
 #include "mcrt_int.h"
 #include <sys/mman.h>
 
@@ -86,3 +87,31 @@ void *__wrap_memset(void *d, int c, size_t n)
     if (mc_active && n) mon_range(d, n, 1, __builtin_return_address(0));
     return __real_memset(d, c, n);
 }
+
+/* results of getaddrinfo live in the C library's own heap */
+#include <netdb.h>
+int __real_getaddrinfo(const char *, const char *, const struct addrinfo *, struct addrinfo **);
+int __wrap_getaddrinfo(const char *node, const char *service, const struct addrinfo *hints, struct addrinfo **res)
+{
+    int rc = __real_getaddrinfo(node, service, hints, res); struct addrinfo *ai;
+    if (rc == 0 && res) for (ai = *res; ai; ai = ai->ai_next) { mon_fresh_block(ai, sizeof *ai); if (ai->ai_addr) mon_fresh_block(ai->ai_addr, ai->ai_addrlen); if (ai->ai_canonname) mon_fresh_block(ai->ai_canonname, strlen(ai->ai_canonname) + 1); }
+    return rc;
+}
+
+/* C library functions that write into memory of the code under test: the write is reported to the monitor (the library's own stores are invisible to it).
+ * This is what makes a scratch buffer shared between threads visible when it is only ever filled by strcpy / snprintf / inet_ntop / fgets. */
+#include <stdarg.h>
+#include <arpa/inet.h>
+char *__real_strcpy(char *, const char *); char *__real_strncpy(char *, const char *, size_t); char *__real_strcat(char *, const char *); char *__real_strncat(char *, const char *, size_t);
+char *__real_fgets(char *, int, FILE *); const char *__real_inet_ntop(int, const void *, char *, socklen_t); int __real_inet_pton(int, const char *, void *);
+#define W_RANGE(p, n) do { if (mc_active && (n)) mon_range((p), (n), 1, __builtin_return_address(0)); } while (0)
+#define R_RANGE(p, n) do { if (mc_active && (n)) mon_range((p), (n), 0, __builtin_return_address(0)); } while (0)
+char *__wrap_strcpy(char *d, const char *s) { size_t n = strlen(s) + 1; R_RANGE(s, n); W_RANGE(d, n); return __real_strcpy(d, s); }
+char *__wrap_strncpy(char *d, const char *s, size_t n) { size_t l = strnlen(s, n); R_RANGE(s, l < n ? l + 1 : n); W_RANGE(d, n); return __real_strncpy(d, s, n); }
+char *__wrap_strcat(char *d, const char *s) { size_t n = strlen(s) + 1, o = strlen(d); R_RANGE(s, n); W_RANGE(d + o, n); return __real_strcat(d, s); }
+char *__wrap_strncat(char *d, const char *s, size_t n) { size_t l = strnlen(s, n), o = strlen(d); R_RANGE(s, l); W_RANGE(d + o, l + 1); return __real_strncat(d, s, n); }
+char *__wrap_fgets(char *d, int n, FILE *f) { char *r = __real_fgets(d, n, f); if (r) W_RANGE(d, strlen(d) + 1); return r; }
+const char *__wrap_inet_ntop(int af, const void *src, char *dst, socklen_t size) { const char *r = __real_inet_ntop(af, src, dst, size); R_RANGE(src, af == AF_INET ? 4 : 16); if (r) W_RANGE(dst, strlen(dst) + 1); return r; }
+int __wrap_inet_pton(int af, const char *src, void *dst) { int r = __real_inet_pton(af, src, dst); if (r == 1) W_RANGE(dst, af == AF_INET ? 4 : 16); return r; }
+int __wrap_snprintf(char *d, size_t n, const char *fmt, ...) { va_list ap; int r; va_start(ap, fmt); r = vsnprintf(d, n, fmt, ap); va_end(ap); if (d && n) W_RANGE(d, (size_t)r + 1 < n ? (size_t)r + 1 : n); return r; }
+int __wrap_sprintf(char *d, const char *fmt, ...) { va_list ap; int r; va_start(ap, fmt); r = vsprintf(d, fmt, ap); va_end(ap); if (r >= 0) W_RANGE(d, (size_t)r + 1); return r; }
